@@ -5,6 +5,7 @@ pub mod fs;
 pub mod io;
 pub mod path;
 pub mod prelude;
+pub mod sync;
 pub mod stream {
     pub use futures_core::Stream;
 }
